@@ -1,10 +1,11 @@
 --------------------------- MODULE MC_FileLayout ---------------------------
 EXTENDS FileLayout, Json
-CaseJson == [h |-> h, kind |-> kind]
+CaseJson == [h |-> h, kind |-> kind, tail |-> tail]
 Emit == pc = "done" => PrintT(<<"CASE", ToJson(CaseJson)>>)
 D_startxref  == {<<"ignores_header", "startxref">>}
 D_prev       == {<<"ignores_header", "prev">>}
 D_entry      == {<<"ignores_header", "entry">>}
 D_streamdata == {<<"ignores_header", "streamdata">>}
 D_scan       == {<<"ignores_header", "scan">>}
+D_naive      == {<<"naive_header_search", "header">>}
 =============================================================================
